@@ -12,17 +12,21 @@ META = {
                  "several insertion orders + the real route table regenerated from the real declarations on every run",
     "text": "Theorems over the model of FindRoute (routes visited in an arbitrary order): C32_perm_invariant_at / "
             "C32_perm_invariant (when the deciding stage of the tie-break cascade has exactly one qualifying candidate - the "
-            "decidable predicate det - every permutation of the table resolves the request to the same route, for all tables, "
-            "methods and paths), C32_fewest_vars (unless a candidate is spelled exactly like the path, the chosen route has no "
-            "more variables than any other candidate, for every order), C32_empty_path_is_root / C32_old_refuted (the empty request path resolves like '/' since fix 0d5a8a0d; before, it made every route a candidate), C32_refuted (the unrestricted claim is false: '/' and "
-            "'/x' for path '/x'; replayed on the real code and recorded as known findings per deciding stage). The model is "
-            "compared with the real FindRoute (all permutations of the model vs. re-built and re-iterated real maps; histories "
-            "that interleave Router.New and FindRoute on one router instance, each lookup also compared with a fresh router "
-            "holding the same routes), and det is "
-            "evaluated by coqc on the REAL route table of this tree (dumped from the real declarations on every run) for a "
-            "generated family of request classes. partial: for the real table det is checked on an enumerated family of "
-            "requests derived from the table (prefixes, missing/extra/empty segments, every method), not proved for all paths; "
-            "service routes discovered from lib/services at start-up and redirects.json are not part of the dumped table",
+            "decidable predicate det - every permutation of the table resolves the request to the same route), "
+            "C32_certificate_sound / C32_certificate_deterministic (a verified finite enumeration of request classes - segments "
+            "abstracted per position to the table's own literals or FRESH, methods to the table's methods or FRESHM, pruning of "
+            "prefixes only one route can still match, saturation beyond the longest route, glob routes included: if the boolean "
+            "certificate_f T computes to true then det holds for EVERY method string and path string and FindRoute on T is a "
+            "function of method and path only), C32_fewest_vars (the chosen route has no more variables than any other candidate "
+            "unless one is spelled exactly like the path), C32_history_table / C32_stateless (no hidden state across interleaved "
+            "registrations and lookups), C32_empty_path_is_root / C32_old_refuted (fix 0d5a8a0d), C32_refuted (the unrestricted "
+            "claim is false for hypothetical tables such as '/' + '/x'; recorded as known findings per deciding stage). On every "
+            "run the REAL route table is dumped from the real declarations and the single generated obligation certificate_f "
+            "real_routes = true is closed by vm_compute, giving C32_real_table_deterministic: every permutation of the real "
+            "table answers every request identically. The model is compared with the real FindRoute (all permutations vs. "
+            "re-built and re-iterated maps; histories on one router; ~1970 requests derived from the real table). partial: "
+            "service routes discovered from lib/services at start-up, redirects.json and OAuth routes are not in the dumped "
+            "table; the unrestricted claim fails for hypothetical tables (known findings)",
     "note": "Trusted: Coq kernel; the hand-written model (string equality of endpoint and path expressed on segment lists, "
             "strings.Count as segment count, the min/max loop expressed by its result) tied to the code by the correspondence "
             "run; ASCII methods only; overlay harnesses harness/C32/*.go; props/C32.py generators and comparison.",
@@ -285,7 +289,8 @@ def run(ck):
               "(no lib/services directory, no redirects.json, OAuth AS/RS disabled)")
     ck.trusted("harness/C32/find_test.go, router_dump.go, table_test.go (overlays), props/C32.py generators and comparison",
                "correspondence evaluated by vm_compute in generated files")
-    thms = ["C32_refuted", "C32_perm_invariant_at", "C32_perm_invariant", "C32_fewest_vars", "C32_history_table", "C32_stateless",
+    thms = ["C32_certificate_sound", "C32_certificate_deterministic",
+            "C32_refuted", "C32_perm_invariant_at", "C32_perm_invariant", "C32_fewest_vars", "C32_history_table", "C32_stateless",
             "C32_empty_path_is_root", "C32_old_refuted"]
     coq_ok = ck.coq_stage(GROUP, theorems=thms)
 
@@ -448,6 +453,27 @@ def run(ck):
             ck.violation("table-dump", "the real route table could not be dumped (%d routes):\n%s" % (ntab, log[-1200:]),
                          replay={"log": log[-3000:]}, found_input=False)
         else:
+            # the single obligation for ALL requests: the verified enumerator's certificate on the regenerated table
+            cert_ok = None
+            if coq_ok:
+                src = ("From Coq Require Import Permutation.\nFrom Common Require Import Base.\n"
+                       "From Route Require Import Model Proofs Enum Properties.\nOpen Scope N_scope.\n"
+                       "Definition real_routes : list route := [\n" + ";\n".join(croute(r) for r in table) + "].\n"
+                       "Theorem C32_real_table : certificate_f real_routes = true.\nProof. vm_compute. reflexivity. Qed.\n"
+                       "Theorem C32_real_table_all_requests : forall m p,\n"
+                       "  det (cands real_routes (upper m) (split (norm_path p))) (split (norm_path p)) = true.\n"
+                       "Proof. exact (C32_certificate_sound _ C32_real_table). Qed.\n"
+                       "Theorem C32_real_table_deterministic : forall T' method path, Permutation real_routes T' ->\n"
+                       "  find_route T' method path = find_route real_routes method path.\n"
+                       "Proof. exact (C32_certificate_deterministic _ C32_real_table). Qed.\n"
+                       "Print Assumptions C32_real_table_deterministic.\n")
+                rcq, outq = vf.coq_run(GROUP, ck.work, "RealCertificate", src, timeout=900)
+                cert_ok = rcq == 0
+                ck.add_obligations(3, 3 if cert_ok else 0)
+                ck.cov["real_table_certificate"] = {"holds_for_all_requests": cert_ok, "routes": ntab}
+                if cert_ok:
+                    ck.trusted("generated C32_real_table / C32_real_table_all_requests / C32_real_table_deterministic: " +
+                               ("Closed under the global context" if "Closed under" in outq else outq[-300:]))
             reqs = real_table_requests(table)
             nreq = len(reqs)
             rin, rout = os.path.join(ck.work, "rin.json"), os.path.join(ck.work, "rout.json")
@@ -495,6 +521,11 @@ def run(ck):
                         ck.violation("real-table:%s %s" % (q[0], norm_path(q[1])), "the real FindRoute returns different routes for %s %r: %r" % (
                             q[0], q[1], rres[i]), replay=rep)
                 ck.cov["real_table"] = {"routes": ntab, "request_classes_checked": nreq, "ambiguous": amb}
+                if cert_ok is False and not any(v["signature"].startswith("real-table:") or v["signature"] == "corr-real-table"
+                                                for v in ck.viol):
+                    ck.violation("real-table-certificate", "certificate_f real_routes = true no longer checks: the verified enumerator finds a "
+                                 "request class of the real table that the cascade does not decide (none of the %d enumerated requests "
+                                 "exhibits it):\n%s" % (nreq, outq[-800:]), replay={"log": outq[-3000:]}, found_input=False)
                 ck.sample({"real_table_request": reqs[len(reqs) // 2], "real": rres[len(reqs) // 2]})
 
     ck.cov["evaluations"] = nevals
